@@ -9,7 +9,8 @@ CHECKS["C01"] = (
     "for ALL integer coordinates of every layout with <=3 (quick) / <=4 (thorough) blocks on both strands: the path tree is "
     "exhausted and each path's negated oracle is unsat; the relative-location conversions also leave both operands unchanged. A seeded "
     "off-by-one/strand bug is returned as a concrete input and replayed."
-    " Also: point maps of DERIVED locations (results of optimize_blocks / whole-length sub-intervals on overlapping layouts) and 17-block (thorough 40) locations with symbolic common length/gap.",
+    " Also: point maps of DERIVED locations (results of optimize_blocks / whole-length sub-intervals on overlapping layouts) and 17-block (thorough 40) locations with symbolic common length/gap."
+    " Round 9: strand-flipped / re-stranded copies of overlapping layouts answer like fresh locations; every window of scan_windows on overlapping / nested blocks is the documented sub-interval.",
     _NOTE, "DESIGN.md §3 C01")
 CHECKS["C02"] = (
     _CH,
@@ -18,7 +19,8 @@ CHECKS["C02"] = (
     "for ALL integer coordinates of operands up to (2,1)/(1,2) blocks (quick; 2x2 for full-span, 3x2 for INNER distance) and "
     "(2,2),(3,1),(1,3) (thorough), all flag combinations, parents none/equal/mismatched (by id, sequence, sequence type, grand-parent); result normal form asserted; "
     "every obligation also asserts both operands unchanged."
-    " Round 7: both operands with 12 blocks (144 pairs) interleaving with a common period and an empty block placed anywhere; is_overlapping / merge_overlapping / optimize_and_combine_blocks asked of locations RETURNED by optimize_blocks / minus / union_preserve_overlaps.",
+    " Round 7: both operands with 12 blocks (144 pairs) interleaving with a common period and an empty block placed anywhere; is_overlapping / merge_overlapping / optimize_and_combine_blocks asked of locations RETURNED by optimize_blocks / minus / union_preserve_overlaps."
+    " Round 9: three-call overlap histories on one object; 34x34-block operands with a self-overlapping block; contains / intersection / has_overlap with operands whose own blocks overlap (defect found and repaired, 8a6aad3); parents differing only in their placement on the grandparent.",
     _NOTE, "DESIGN.md §3 C02")
 CHECKS["C06"] = (
     _CH,
@@ -37,7 +39,8 @@ CHECKS["C16"] = (
     "the real AnnotationCollection code against the exact bin terms, strict and relaxed, 2-isoform gene with a gap - are decided by CrossHair. "
     "Recorded deviations (F6a, F6b, F6e) are excluded by their exact regions and replayed on every run."
     " Stored bins of gene/feature/collection objects are compared on the exact bin terms (wiring_exact_*), and a straddling 2-isoform gene with a later contained member is in the quick tier."
-    " Round 7: members that are variant collections lying anywhere outside the hull of the genes, and members sharing a user-supplied guid, under exact bins.",
+    " Round 7: members that are variant collections lying anywhere outside the hull of the genes, and members sharing a user-supplied guid, under exact bins."
+    " Round 9: 72-member collections over 160+ bins with coding_only, strict and relaxed, real bins().",
     "Trusted: z3 5.1 / cvc5 1.4 on LIA with div by constants; the translator (validated per run); the independent UCSC "
     "reference in harness/c16.py. If bins() leaves the translatable subset the SMT obligations are inconclusive and a "
     "concrete boundary-grid fallback (stated in evidence) is the only remaining detector.",
@@ -49,7 +52,8 @@ CHECKS["C14"] = (
     "rendering, for all integer coordinates of <=3 (quick) / <=4 (thorough) block transcripts/features, coding (every exon "
     "sub-span) or not, both strands, chromosome mode, chunk-built chromosome mode and chunk-relative mode with a symbolic chunk "
     "offset; adjacent blocks; 5'-partial CDSs (start frame 1/2); both modes asked of one object in either order."
-    " Round 7: chunks placed on the MINUS strand (mirrored blocks and thick range, strand in chunk coordinates; defect found and repaired, f6a2b2a); name column across classes in one process.",
+    " Round 7: chunks placed on the MINUS strand (mirrored blocks and thick range, strand in chunk coordinates; defect found and repaired, f6a2b2a); name column across classes in one process."
+    " Round 9: name= given a property name (id / name); the mode flag as a truth value (0 / None / 1).",
     _NOTE, "DESIGN.md §3 C14")
 CHECKS["C05"] = (
     _CH,
@@ -69,7 +73,8 @@ CHECKS["C15"] = (
     "involution, case) as unsat z3 queries over tables read from the live modules; CDSFrame.shift laws for ALL integers, "
     "frame<->phase, strand group/order laws and the real Codon class on all 4096 IUPAC triplets by CrossHair; a held strict codon keeps every "
     "answer after any other codon over ACGTU (either case) is constructed (singleton table isolation)."
-    " Round 7: codon registry under pressure (all 4096 triplets + rejected strings); reverse complement of long mixed-case sequences at lengths 2^e-1..2^e+1.",
+    " Round 7: codon registry under pressure (all 4096 triplets + rejected strings); reverse complement of long mixed-case sequences at lengths 2^e-1..2^e+1."
+    " Round 9: complement of every 3-letter text is letter-by-letter (no dependence on other letters); has_name / has_value agree with Enum lookups for near-miss spellings.",
     "Trusted: Bio.Data.CodonTable / IUPACData as reference tables; z3 5.1 (cvc5 1.4 cross-check); CrossHair for the laws.",
     "DESIGN.md §3 C15")
 CHECKS["C18"] = (
@@ -80,7 +85,8 @@ CHECKS["C18"] = (
     "merge (_merge_qualifiers / export_qualifiers of feature, transcript, CDS) on every pair of a 10-dictionary catalogue; "
     "gff3.parser.filter_and_sort_qualifiers on 3-subsets of a 25-key catalogue (exact reserved keys only). "
     "The rank-0 override (F1) is excluded by its exact region and replayed."
-    " Round 7: reserved-key filter on consecutive dictionaries in a freshly loaded parser module (case variants in either order); GFF3 gene symbol / biotype / id priority through the real parser for every attribute order.",
+    " Round 7: reserved-key filter on consecutive dictionaries in a freshly loaded parser module (case variants in either order); GFF3 gene symbol / biotype / id priority through the real parser for every attribute order."
+    " Round 9: qualifiers of every child row of a non-gene GFF3 feature (1..9 rows); sibling transcripts keep their own transcript_id / None in every record order.",
     _NOTE + " The GenBank-record-permutation clause is outside the claim (module not importable here).",
     "DESIGN.md §3 C18")
 CHECKS["C03"] = (
@@ -102,7 +108,8 @@ CHECKS["C04"] = (
     "chunk-to-chunk re-lift; sequence preservation by identity and by type on tagged sequences at depth 2 and 3; missing ancestors refused."
     " Also: lift-over through a placement of two OVERLAPPING blocks (length preserved, every child base covered; block order is the library's sorted normal form)."
     " Round 7: a 20-block child through a two-block placement with the junction anywhere; lift-over by sequence identity on long named chromosomes differing in one base."
-    " Round 8: io.parser chunk / chromosome parents for same-named sequences differing in one base.",
+    " Round 8: io.parser chunk / chromosome parents for same-named sequences differing in one base."
+    " Round 9: re-lifting a chunk location onto a same-window chunk of another sequence; Parent(sequence=, parent=) leaves the caller's Sequence untouched.",
     _NOTE, "DESIGN.md §3 C04")
 CHECKS["C07"] = (
     _CH,
@@ -116,7 +123,8 @@ CHECKS["C07"] = (
     "F8b and F18 excluded by their exact regions."
     " Also: every position conversion of a coding transcript on a cutting chunk equals the parent-less twin's; isoform CDSs with equal spans evaluated alternately on one chunk; the primary transcript/feature is the twin's. Block structure of the chunk view = chromosome blocks clipped to the window (touching blocks kept apart); codon windows by chromosome start/end on chunk-built CDSs list exactly the model codons inside window and chunk (defect found and repaired, a55c0c6); stop/start predicates and scan_codons of the chunk view."
     " Round 7: UTRs of chunk-built transcripts = chromosome UTR bases inside the window, on plus- and minus-strand chunks (defect found and repaired, 3b5d60d); every chunk_relative_* accessor, conversion along the visible part and from_chunk_relative_location on cutting chunks of both strands (b0cbd12, 68dca75); sequence answers on minus-strand chunks."
-    " Round 8: codon windows asked in chromosome coordinates of a chunk-built CDS equal the twin's; io.parser chunk parents are built from their own sequence content; CDS- and feature-level chunk-relative conversions.",
+    " Round 8: codon windows asked in chromosome coordinates of a chunk-built CDS equal the twin's; io.parser chunk parents are built from their own sequence content; CDS- and feature-level chunk-relative conversions."
+    " Round 9: lookups alternating between chromosome and chunk coordinates on 5'-cut transcripts.",
     _NOTE, "DESIGN.md §3 C07")
 CHECKS["C08"] = (
     _CH + "; cvc5/z3 string queries over digest pre-image templates extracted from the real constructors",
@@ -129,7 +137,8 @@ CHECKS["C08"] = (
     "variants. F7 (VariantInterval pre-image without separator) recorded."
     " Also: features with blocks sharing a start (exported lists = constructor lists); an exported dictionary is not consumed by importing it (imports twice to the same collection)."
     " Round 7: chunk-relative dictionary export re-imported on the chunk sequence alone (blocks, chunk-relative frames, protein); two same-named long genomes re-imported alternately through from_dict / pickle."
-    " Round 8: the alternative constructors from a Location (from_location) describe the same object (dictionary form and guid).",
+    " Round 8: the alternative constructors from a Location (from_location) describe the same object (dictionary form and guid)."
+    " Round 9: identifiers of 200-600-block objects and 9000-character qualifier values (one changed coordinate / frame / character changes the guid); qualifier values of mixed types.",
     _NOTE + " MD5 collision freedom assumed; pickle's byte format and a process-level PYTHONHASHSEED sweep are outside the claim.",
     "DESIGN.md §3 C08")
 CHECKS["C13"] = (
@@ -174,7 +183,8 @@ CHECKS["C19"] = (
     "locations under the default recursion head-room, query ranges with unconstrained integers, 3-variant collections in any order). Post-condition: a well-formed value, or an exception from the allowed set "
     "(BioCantorException subclasses, ValueError, TypeError, NotImplementedError); any other exception is a counterexample."
     " Also: invalid codon text refused on every request (no half-built singleton), and a single out-of-alphabet character at block edges (multiples of 1024) of a 196613-nt sequence."
-    " Round 7: valid constructions ending at 2^e-1, 2^e, 2^e+1 (e = 14..31) with the real bins(); members re-parented by a collection refuse with documented errors only.",
+    " Round 7: valid constructions ending at 2^e-1, 2^e, 2^e+1 (e = 14..31) with the real bins(); members re-parented by a collection refuse with documented errors only."
+    " Round 9: CDS blocks outside the exons (finding F20 recorded with its region); strict parent comparison refuses systems placed differently on their parent; one foreign character (128 x 5 positions) in every alphabet.",
     _NOTE, "DESIGN.md §3 C19")
 CHECKS["C11"] = (
     _CH + "; z3 queries over the live escape tables; the export->parse leg runs the real gffutils-based parser natively on realised inputs",
@@ -190,7 +200,8 @@ CHECKS["C11"] = (
     "from the second generation. F15, F16, F17 recorded."
     " Isoforms with and without transcript id in one gene are among the identifier patterns."
     " Round 7: rows of a gene / feature collection on a chunk placed on the MINUS strand (chromosome rows = twin's, chunk-relative rows = mirror image with the chunk strand on every row; defect found and repaired, 2b8acd1)."
-    " Round 8: coding pseudogene transcripts and number-like qualifier text (1.10, 007, 1e3, +5) survive export -> parse.",
+    " Round 8: coding pseudogene transcripts and number-like qualifier text (1.10, 007, 1e3, +5) survive export -> parse."
+    " Round 9: GFF3 text with CDS rows and no exon rows (1-nt segments) through the real parser.",
     _NOTE + " The parse legs are realised (gffutils/sqlite3 run natively): exhaustive over the stated finite spaces only.", "DESIGN.md §3 C11, §8.1")
 CHECKS["C17"] = (
     _CH,
@@ -213,7 +224,8 @@ CHECKS["C10"] = (
     "schedule must agree with it (3-level hierarchies included). H1: with unbounded symbolic coordinates (overlapping/nested layouts included), "
     "after filling the hand-written lazy slots of a CompoundInterval every accessor answers as on an untouched twin."
     " Also: Parent objects (sequence/strand/location/ancestry shapes) and interval-level lift-over to different ancestor types in the schedule catalogues."
-    " Round 7: class-level codon registry (a CDS with a refused / accepted middle codon answers the same every time; each path its own text); members asked before being adopted by a collection on another parent (in-place re-parenting; stale-memo finding F19 recorded with its exact region).",
+    " Round 7: class-level codon registry (a CDS with a refused / accepted middle codon answers the same every time; each path its own text); members asked before being adopted by a collection on another parent (in-place re-parenting; stale-memo finding F19 recorded with its exact region)."
+    " Round 9: aggregates carrying identifier-named qualifiers (product, protein_id, feature_name) and an rRNA / tRNA collection with the feature-table export in the schedules.",
     _NOTE + " Histories longer than 3 operations and multi-threaded use are outside the claim.", "DESIGN.md §3 C10")
 for _p in []:
     NOT_APPLICABLE[_p] = "check not built yet (build in progress; see DESIGN.md §3 for the planned solver-based check)"
